@@ -319,6 +319,29 @@ def g3_shape(ctx):
                         okz = re.fullmatch(r"frozenset\(\w+\)", arg) is not None and len(lits) == 1 and a.lineno < c.lineno
                         ctx.check(okz, f, a, f"{f.short}: zero-support candidates appended as one final tied group, only when present", f"{arg} under {sorted(lits)}",
                                   f"zero-support tail is `{arg}` under {sorted(lits)}")
+    # ... and they do reach the ballots: a generator that computes the zero-support candidates of a bloc uses them for more
+    # than a test (a ballot of a complete-ranking model lists every candidate)
+    for f in _gen_functions(prog):
+        for zn in ("zero_cands", "tied_candidates"):
+            ds = [st for st, dv in astx.defs_of(f.node, zn) if dv is not None]
+            if not ds:
+                continue
+            pmz = astx.parents(f.node)
+            reads = [x for x in astx.walk_own(f.node) if isinstance(x, ast.Name) and x.id == zn and isinstance(x.ctx, ast.Load)]
+
+            def in_test(x):
+                cur = x
+                while cur in pmz:
+                    par = pmz[cur]
+                    if isinstance(par, (ast.If, ast.IfExp, ast.While)) and par.test is cur:
+                        return True
+                    if isinstance(par, ast.stmt):
+                        return False
+                    cur = par
+                return False
+            used = [x for x in reads if not in_test(x)]
+            ctx.check(bool(used), f, ds[0], f"{f.short}: the zero-support candidates `{zn}` reach the generated ballots", "",
+                      f"`{zn}` is computed but only tested, never placed on a ballot: generated rankings omit the candidates without support")
     if n < 9:
         ctx.vanished("generated ballot constructions" + ": " + f"only {n} found")
     # ballot_pool_to_profile counts occurrences
@@ -377,7 +400,15 @@ def g4_aggregation(ctx):
             continue
         folds = [x for x in astx.walk_own(f.node) if isinstance(x, ast.AugAssign) and isinstance(x.op, ast.Add) and isinstance(x.target, ast.Name) and x.target.id == "pp"]
         if not folds:
-            continue  # single-population models return ballot_pool_to_profile directly
+            # single-population models return ballot_pool_to_profile directly; a model that files one profile per bloc
+            # (D[bloc] = profile) has to add them up
+            per_bloc = [x for x in astx.walk_own(f.node) if isinstance(x, ast.Assign) and isinstance(x.targets[0], ast.Subscript) and astx.u(x.targets[0].slice) == "bloc"
+                        and isinstance(x.targets[0].value, ast.Name) and any(astx.u(r.value).startswith(f"({x.targets[0].value.id},") for r in astx.walk_own(f.node) if isinstance(r, ast.Return) and r.value is not None)]
+            if per_bloc:
+                n += 1
+                ctx.violated(f, per_bloc[0], f"{f.short}: aggregate = fold of + over the per-bloc profiles; by_bloc returns (dict, aggregate)",
+                             "the per-bloc profiles are filed but never added up: the aggregate profile does not contain the generated ballots")
+            continue
         n += 1
         pm = astx.parents(f.node)
         fo = folds[0]
